@@ -13,7 +13,7 @@ import (
 func init() { register("C13", "exploration", runC13) }
 
 func runC13(r *engine.Run) {
-	r.Rule = "E1 over a finite space, enumerated completely in both tiers: 24 band names x repeater x dwell-time; per configuration: every data-rate index -1..16 x direction; protocol version {1.0.0..1.1.0, unknown} x revision {A,B,C,RP002-1.0.0..3, unknown} x DR -1..16 through GetMaxPayloadSizeForDataRateIndex and every (version, revision, DR) cell of the snapshot; every default channel; TX-power indices -1..16. Oracle: table closure and relations decided on the hook snapshot (exact key sets and direction flags), Regional Parameters constants from mc/spec/region.go. Non-trivial: a table cell or accessor result that was compared; distinct by construction."
+	r.Rule = "E1 over a finite space, enumerated completely in both tiers: 24 band names x repeater x dwell-time; per configuration: every data-rate index -1..16 x direction; protocol version {1.0.0..1.1.0, unknown, 46 unknown strings on the seam between the two arguments (known version + known revision, empty, the word latest)} x revision {A,B,C,RP002-1.0.0..3, unknown, empty, the word latest, two seam strings} x DR -1..16 through GetMaxPayloadSizeForDataRateIndex and every (version, revision, DR) cell of the snapshot; every default channel; TX-power indices -1..16. Oracle: table closure and relations decided on the hook snapshot (exact key sets and direction flags), Regional Parameters constants from mc/spec/region.go. Non-trivial: a table cell or accessor result that was compared; distinct by construction."
 	// channel histories (E2): the data-rates handed out stay defined, and supported by a channel, after custom channels are added
 	for _, name := range bandNames {
 		cfg := bandCfg{name, false, lorawan.DwellTimeNoLimit}
@@ -147,6 +147,17 @@ func runC13(r *engine.Run) {
 	cfgs := allBandCfgs(true)
 	versions := []string{band.LoRaWAN_1_0_0, band.LoRaWAN_1_0_1, band.LoRaWAN_1_0_2, band.LoRaWAN_1_0_3, band.LoRaWAN_1_0_4, band.LoRaWAN_1_1_0, "9.9.9"}
 	revisions := []string{band.RegParamRevA, band.RegParamRevB, band.RegParamRevC, band.RegParamRevRP002_1_0_0, band.RegParamRevRP002_1_0_1, band.RegParamRevRP002_1_0_2, band.RegParamRevRP002_1_0_3, "Z"}
+	// unknown strings that sit on the seam between the two arguments: a known version followed by a
+	// known revision given as the version (with an empty revision) or as the revision (with an empty
+	// version), the empty string and the table's own fallback word - all unknown, all resolving to
+	// the latest table by the documented rule
+	for _, v := range versions[:6] {
+		for _, rv := range revisions[:7] {
+			versions = append(versions, v+rv)
+		}
+	}
+	versions = append(versions, "", "latest", band.LoRaWAN_1_0_2+" ", "1.0")
+	revisions = append(revisions, "", "latest", band.LoRaWAN_1_0_2+band.RegParamRevA, "a")
 
 	r.PartDims("tables", []string{fmt.Sprintf("config:%d", len(cfgs)), "dr:-1..16", "direction:2", "version:7", "revision:8"}, uint64(len(cfgs)), func(c *engine.Case) {
 		cfg := cfgs[c.Index]
